@@ -76,10 +76,20 @@ def producer_facts(cx, dinit):
     return None
 
 
-def check_id_poly(cx, fn, idterm, self_s, x, y, z, where, construct, what):
-    """idterm must equal x + y*N_x + z*N_x*N_y in every extent case."""
+def check_id_poly(cx, fn, idterm, self_s, x, y, z, where, construct, what, cond=None, quiet=False):
+    """idterm must equal x + y*N_x + z*N_x*N_y in every extent case (of those the path condition `cond` admits: a term read
+    on a path that has tested an extent is already simplified with that fact)."""
     want = expected_id(self_s, x, y, z)
     for label, mapping, assume in extent_cases(self_s):
+        if cond is not None:
+            from sa.terms import mk_cmp as _mk, f_and as _fa, f_not as _fn, implies as _imp
+            from .geom import AXES as _AX, positive as _pos
+            case = _fa(*[(_mk(Attr(self_s, ext), '==', ZERO) if Attr(self_s, ext) in mapping else _pos(Attr(self_s, ext))) for _, ext, _ in _AX])
+            try:
+                if _imp(cond, _fn(case), domain='int') is None:
+                    continue
+            except Exception:
+                pass
         a = subst_case(idterm, mapping)
         b = subst_case(want, mapping)
         if a != b:
@@ -89,8 +99,9 @@ def check_id_poly(cx, fn, idterm, self_s, x, y, z, where, construct, what):
                          f"with a zero-extent axis below a populated one", where=where, found=repr(idterm), expected=repr(want),
                          case=label)
             return False
-    cx.ok('R-AGREE', f"{what}: id == x + y*N_x + z*N_x*N_y in all 8 extent cases", where=where, function=fn.qualname,
-          id=repr(idterm))
+    if not quiet:
+        cx.ok('R-AGREE', f"{what}: id == x + y*N_x + z*N_x*N_y in all 8 extent cases", where=where, function=fn.qualname,
+              id=repr(idterm))
     return True
 
 
